@@ -28,7 +28,7 @@ func init() {
 	})
 }
 
-var c13PClasses = []string{"zero", "one", "interior", "just-above-eps", "just-below-1-eps", "equal-target"}
+var c13PClasses = []string{"zero", "one", "interior", "just-above-eps", "just-below-1-eps", "equal-target", "ulps-from-eps", "ulps-from-1-eps"}
 
 func runC13(c *fw.Ctx) {
 	// ---- (i) + (iii): leaf predictions, repeated rounds on one loss object ----
@@ -80,7 +80,7 @@ func c13Leaf(k *fw.K, kind string, b, cl int) {
 				t.Data[i] = 0.05 + 0.9*k.Rng.Float64()
 				present["t:soft"] = true
 			}
-			pc := k.Rng.Intn(6)
+			pc := k.Rng.Intn(8)
 			present["p:"+c13PClasses[pc]] = true
 			switch pc {
 			case 0:
@@ -95,6 +95,21 @@ func c13Leaf(k *fw.K, kind string, b, cl int) {
 				p.Data[i] = 1 - ref.Eps - 1e-9*(0.01+k.Rng.Float64())
 			case 5:
 				p.Data[i] = t.Data[i]
+			case 6, 7: // a few units in the last place above / below a clipping bound (never the bound itself)
+				b := ref.Eps
+				if pc == 7 {
+					b = 1 - ref.Eps
+				}
+				dir := math.Inf(1)
+				if k.Rng.Intn(2) == 0 {
+					dir = math.Inf(-1)
+				}
+				steps := []int{1, 2, 3, 100, 4000}[k.Rng.Intn(5)]
+				v := b
+				for q := 0; q < steps; q++ {
+					v = math.Nextafter(v, dir)
+				}
+				p.Data[i] = v
 			}
 		}
 		trackP := k.Rng.Intn(8) > 0
